@@ -373,6 +373,80 @@ fn table(em: &mut Emitter) {
     }
 }
 
+/// Second exhaustive table (configuration shape and repetition):
+/// (a) four exchanges whose enum order disagrees with the order of their names (Mock, Simulated,
+///     Other declared first but named last; Bitvavo declared before Bithumb) plus Kraken, every
+///     subset of execution links over the first three in index order (so an unlinked exchange
+///     sits in the middle / at the front / at the end of the transmitter table);
+/// (b) repetition: A,B,A with B sharing (exchange, internal name) with A; A,x,A,y,A; an exchange
+///     revisited (A,B,A on exchange level); two instruments whose shared base asset is spelled
+///     differently (same internal asset name, two exchange names).
+fn table2(em: &mut Emitter) {
+    let odd = [
+        ExchangeId::Mock,
+        ExchangeId::Kraken,
+        ExchangeId::Bithumb,
+        ExchangeId::Bitvavo,
+        ExchangeId::Simulated,
+        ExchangeId::Other,
+    ];
+    let cat: Vec<Def> = odd
+        .iter()
+        .enumerate()
+        .map(|(i, e)| build_def(&spot_bp(*e, Spelling::Upper, i % 2, 2 + i % 2)))
+        .collect();
+    // every 3- and 4-subset of the six exchanges, every subset of links on its exchanges
+    for mask in 0u32..64 {
+        let n = mask.count_ones();
+        if n != 3 && n != 4 {
+            continue;
+        }
+        let ds: Vec<Def> = (0..6).filter(|i| mask & (1 << i) != 0).map(|i| cat[i].clone()).collect();
+        let mut exs: Vec<ExchangeId> = ds.iter().map(|d| d.exchange).collect();
+        exs.sort();
+        for links in 0u32..(1 << exs.len()) {
+            // keep the table small: all link subsets for 3 exchanges, the "hole" patterns for 4
+            if exs.len() == 4 && !matches!(links, 0b1011 | 0b1101 | 0b1001 | 0b0110 | 0b1010) {
+                continue;
+            }
+            let added: Vec<ExchangeId> =
+                exs.iter().enumerate().filter(|(i, _)| links & (1 << i) != 0).map(|(_, e)| *e).collect();
+            emit_idx(em, "table", &ds, &added, &["table_enum_vs_name_order".to_string()]);
+        }
+    }
+    emit_perm(em, "table", &cat[..5], 0, 0, &["table_enum_vs_name_order".to_string()]);
+
+    // repetition
+    let a_bp = Blueprint { kind: KindTag::Perpetual, settlement: 6, unit: UnitTag::Asset(7), variant: 1, ..spot_bp(ExchangeId::Okx, Spelling::Upper, 0, 2) };
+    let a = build_def(&a_bp);
+    let sib = build_def(&Blueprint {
+        kind: KindTag::Spot,
+        unit: UnitTag::Contract,
+        name_internal: Some(a.name_internal.name().to_string()),
+        name_exchange: Some(a.name_exchange.name().to_string()),
+        ..a_bp.clone()
+    });
+    let x = build_def(&spot_bp(ExchangeId::Kraken, Spelling::Alias, 1, 3));
+    let y = build_def(&spot_bp(ExchangeId::Okx, Spelling::Upper, 4, 2));
+    let respelled = build_def(&Blueprint { base_spelling: Some(Spelling::Lower), ..spot_bp(ExchangeId::Okx, Spelling::Upper, 0, 3) });
+    let reps: Vec<(Vec<Def>, &str)> = vec![
+        (vec![a.clone(), sib.clone(), a.clone()], "table_aba_same_key_sibling"),
+        (vec![sib.clone(), a.clone(), sib.clone(), a.clone()], "table_aba_same_key_sibling"),
+        (vec![a.clone(), x.clone(), a.clone(), y.clone(), a.clone()], "table_triple_non_adjacent"),
+        (vec![a.clone(), x.clone(), y.clone()], "table_exchange_revisited"),
+        (vec![y.clone(), x.clone(), a.clone(), x.clone()], "table_exchange_revisited"),
+        (vec![y.clone(), respelled.clone(), a.clone()], "table_asset_two_exchange_names"),
+        (vec![a.clone()], "table_single_instrument"),
+    ];
+    for (ds, tag) in reps {
+        let mut exs: Vec<ExchangeId> = ds.iter().map(|d| d.exchange).collect();
+        exs.sort();
+        exs.dedup();
+        emit_idx(em, "table", &ds, &exs[..1], &[tag.to_string()]);
+        emit_perm(em, "table", &ds, 0, 0, &[tag.to_string()]);
+    }
+}
+
 fn gen_added(r: &mut Rng, ds: &[Def]) -> Vec<ExchangeId> {
     let mut exs: Vec<ExchangeId> = ds.iter().map(|d| d.exchange).collect();
     exs.sort();
@@ -394,6 +468,7 @@ fn main() {
             let (n_idx, n_adv, n_perm, n_perm_adv, n_big) =
                 if thorough { (6000, 3000, 2500, 800, 600) } else { (330, 170, 170, 60, 40) };
             table(&mut em);
+            table2(&mut em);
             let wf = GenOpts { adversarial: false, max_exchanges: 4, max_catalogue: 7, max_len: 10, spot_only: false };
             let adv = GenOpts { adversarial: true, ..wf };
             for _ in 0..n_idx {
